@@ -921,6 +921,26 @@ func (m *Model) resultPaths(l Lit) ([]map[string]Lit, bool) {
 		}
 		return append(append([]Lit{}, lits...), m.litOf(v, wantBool, nil))
 	}
+	// ... and a result that is handed on unchanged (return payload, err with err the error of the
+	// decode): "result == nil" is "that value == nil"
+	withValue0 := withValue
+	withValue = func(lits []Lit, v ssa.Value) []Lit {
+		lits = withValue0(lits, v)
+		if want != "nil" || v == nil {
+			return lits
+		}
+		if _, isC := v.(*ssa.Const); isC {
+			return lits
+		}
+		if _, isPhi := v.(*ssa.Phi); isPhi {
+			return lits
+		}
+		sv := m.Sym.Of(v)
+		if sv.V == nil {
+			sv.V = v
+		}
+		return append(append([]Lit{}, lits...), Lit{S: &Sym{Op: "bin", Name: "==", Args: []*Sym{sv, {Op: "const", Name: "nil"}}}, Truth: !neg})
+	}
 	var paths []map[string]Lit
 	hfacts, live := m.Facts(h, hspec)
 	guardsOf := func(b *ssa.BasicBlock) []Lit {
@@ -1652,7 +1672,47 @@ func (m *Model) knownNonNil(v ssa.Value, b *ssa.BasicBlock) bool {
 	if definitelyNonNil(v) {
 		return true
 	}
+	v0 := v
+	for i := 0; i < 3; i++ {
+		if mi, isMI := v.(*ssa.MakeInterface); isMI {
+			v = mi.X
+		} else if ci, isCI := v.(*ssa.ChangeInterface); isCI {
+			v = ci.X
+		}
+	}
+	// a value returned under its own non-nil test (if err != nil { return nil, err })
+	if b != nil {
+		for _, l := range m.Guards(b) {
+			if !l.Truth && l.S.Op == "bin" && l.S.Name == "==" && len(l.S.Args) == 2 {
+				for i := 0; i < 2; i++ {
+					if l.S.Args[i].String() == "nil" && l.S.Args[1-i].V == v0 {
+						return true
+					}
+				}
+			}
+		}
+	}
 	call, ok := v.(*ssa.Call)
+	// an error constructor of the library: every return hands back a freshly built value
+	// (func (e *T) validationError(...) error { return &ValidationError{...} })
+	if ok && !call.Call.IsInvoke() {
+		if h := call.Call.StaticCallee(); h != nil && m.isLib(h) && h.Blocks != nil && h.Signature.Results().Len() == 1 && m.nonNilDepth < 3 {
+			m.nonNilDepth++
+			all, n := true, 0
+			for _, hb := range liveBlocks(h) {
+				if ret, isRet := hb.Instrs[len(hb.Instrs)-1].(*ssa.Return); isRet && hb != h.Recover {
+					n++
+					if !m.knownNonNil(returnValue(ret, 0), hb) {
+						all = false
+					}
+				}
+			}
+			m.nonNilDepth--
+			if all && n > 0 {
+				return true
+			}
+		}
+	}
 	if !ok || !call.Call.IsInvoke() || call.Call.Method.Name() != "Err" || !isNamed(call.Call.Value.Type(), "context", "Context") || b == nil {
 		return false
 	}
@@ -1679,7 +1739,7 @@ func (m *Model) controlCondsDeep(at ssa.Instruction, depth int) []Lit {
 	}
 	seen := map[*ssa.Call]bool{}
 	for _, l := range append(append([]Lit{}, out...), m.GuardsAt(at)...) {
-		call, _, _, _, ok := m.resultTest(l)
+		call, ridx, _, _, ok := m.resultTest(l)
 		if !ok || seen[call] {
 			continue
 		}
@@ -1703,6 +1763,34 @@ func (m *Model) controlCondsDeep(at ssa.Instruction, depth int) []Lit {
 				hl.S = substSym(hl.S, sub)
 				hl.Derived = true
 				out = append(out, hl)
+			}
+			// a predicate that returns a comparison itself (return a == nil || b == c): the
+			// non-constant boolean values it can return decide as well
+			if ridx < len(ret.Results) {
+				var vals func(v ssa.Value, d int)
+				vals = func(v ssa.Value, d int) {
+					if d > 3 {
+						return
+					}
+					switch x := v.(type) {
+					case *ssa.Const:
+						return
+					case *ssa.Phi:
+						for _, e := range x.Edges {
+							vals(e, d+1)
+						}
+						return
+					}
+					if bt, isB := v.Type().Underlying().(*types.Basic); !isB || bt.Info()&types.IsBoolean == 0 {
+						return
+					}
+					hl := m.litOf(v, true, nil)
+					hl.Truth = true
+					hl.S = substSym(hl.S, sub)
+					hl.Derived = true
+					out = append(out, hl)
+				}
+				vals(returnValue(ret, ridx), 0)
 			}
 		}
 	}
